@@ -189,6 +189,32 @@ func presentBeforeStart(c Case, srv *fakeprom.BitmapServer, reqs []fakeprom.Rang
 	return false
 }
 
+// firstSliceStart: where the first slice of a call over a window beginning at `start` began - the earliest start
+// among the logged requests (of the reading's grid phase) that contain `start`. (A concurrent narrower call may have
+// a request beginning exactly at `start`; the slice that explains presence reported before `start` is the one that
+// reaches back furthest.) `start` itself if no request contains it.
+func firstSliceStart(reqs []fakeprom.RangeRequest, start int64) int64 {
+	best := start
+	for _, r := range reqs {
+		if r.Start <= start && start <= r.End && r.Start < best {
+			best = r.Start
+		}
+	}
+	return best
+}
+
+// presentBeforeStartFrom: some series of c has a sample on a grid point g0 + n*step that lies before c.Start.
+func presentBeforeStartFrom(c Case, srv *fakeprom.BitmapServer, g0 int64) bool {
+	for i := range c.Series {
+		for t := g0; t < c.Start; t += c.Step {
+			if srv.Present(i, t) {
+				return true
+			}
+		}
+	}
+	return false
+}
+
 // errBeforeStart marks a failure whose ONLY disagreement with the unsliced evaluation is presence reported on
 // grid points before `start` (established by comparing again after cutting that part off pint's output).
 var errBeforeStart = errors.New("presence reported before the requested start")
@@ -800,6 +826,7 @@ func checkFailover(c Case) (sh shape, err error) {
 		// that ends where its window ends (its trailing slice); if that slice came from the cache, on any phase seen.
 		judged++
 		var err error
+		var errReqs []fakeprom.RangeRequest // the request group (grid phase) the reported reading was made on
 		for _, reqs := range byPhase(union, c.Step, w.end) {
 			want, rerr := reference(ac, a.srv, reqs)
 			if rerr != nil {
@@ -813,13 +840,16 @@ func checkFailover(c Case) (sh shape, err error) {
 			// among failing readings prefer the one in which the only disagreement is the known pre-start presence
 			// (two concurrent windows can end at the same instant, so "the call's own grid" is not always unique)
 			if err == nil || (errors.Is(jerr, errBeforeStart) && !errors.Is(err, errBeforeStart)) {
-				err = jerr
+				err, errReqs = jerr, reqs
 			}
 		}
 		if err != nil {
 			err = fmt.Errorf("call %d of %d concurrent calls, window start=%d end=%d step=%ds (the case's window %+d/%+d steps), %d upstream(s), %d contacted, result attributed to upstream %d (%s): not the unsliced evaluation on that server: %w",
 				i+1, len(wins), w.start, w.end, c.Step, (w.start-c.Start)/c.Step, (w.end-c.End)/c.Step, len(ups), contacted, ans, o.r.URI, err)
-			if errors.Is(err, errBeforeStart) && presentBeforeStart(ac, a.srv, union) {
+			// C13-K1's predicate, per call: the window of THIS call, the database of the upstream that answered it, and
+			// the grid of this call's own first slice (the logged request, on the reading's phase, that contains the
+			// window start) - not the case's window and not the earliest request of any call
+			if errors.Is(err, errBeforeStart) && presentBeforeStartFrom(ac, a.srv, firstSliceStart(errReqs, w.start)) {
 				sh.followBeforeStart = true
 				if deferred == nil || errors.Is(deferred, errNoFailover) {
 					deferred = err
